@@ -222,3 +222,42 @@ pub fn format_specs(b: [u8; 3]) -> usize {
     specs!(v14);
     total
 }
+
+struct NullSink(usize);
+impl core::fmt::Write for NullSink {
+    fn write_str(&mut self, s: &str) -> core::fmt::Result {
+        self.0 += s.len();
+        Ok(())
+    }
+}
+
+/// A host dumps its scanners into a log when something looks wrong: `{:?}` and `{:#?}` of a value
+/// (scanner in whatever state it is in, reported message) into a sink that needs no heap.
+pub fn debug_dump(v: &impl core::fmt::Debug) -> usize {
+    use core::fmt::Write;
+    let mut s = NullSink(0);
+    let _ = write!(s, "{:?}", v);
+    let _ = write!(s, "{:#?}", v);
+    s.0
+}
+
+struct Fnv1a(u64);
+impl core::hash::Hasher for Fnv1a {
+    fn finish(&self) -> u64 {
+        self.0
+    }
+    fn write(&mut self, bytes: &[u8]) {
+        for b in bytes {
+            self.0 = (self.0 ^ *b as u64).wrapping_mul(0x0000_0100_0000_01B3);
+        }
+    }
+}
+
+/// Reported messages are `Hash` (hosts key maps by them): equal messages hash equally, with a
+/// hasher that needs no heap.
+pub fn hash_of(v: &impl core::hash::Hash) -> u64 {
+    use core::hash::Hasher;
+    let mut h = Fnv1a(0xcbf2_9ce4_8422_2325);
+    v.hash(&mut h);
+    h.finish()
+}
